@@ -308,6 +308,9 @@ pub fn run_scenario(sc: &Value, ex: &mut Exec) -> usize {
     if let Some(x) = sc.get("tag") {
         begin["tag"] = x.clone();
     }
+    if let Some(x) = sc.get("grp") {
+        begin["grp"] = x.clone();
+    }
     emit(ex, begin);
 
     let mut run = Run::none();
@@ -350,7 +353,13 @@ pub fn run_scenario(sc: &Value, ex: &mut Exec) -> usize {
                     next_id += 1;
                     next_id
                 };
-                let msg = obs::message(id, len, le);
+                let msg = match st.get("msg").and_then(|v| v.as_str()) {
+                    Some(m) => m.to_string(),
+                    None => obs::message(id, len, le),
+                };
+                if raw {
+                    ev["hex"] = json!(obs::hex(format!("{}{}", msg, cfg.le()).as_bytes()));
+                }
                 let lvl = level(st.get("lvl").and_then(|v| v.as_str()).unwrap_or("info"));
                 ev["id"] = json!(id);
                 ev["len"] = json!(len.max(le));
@@ -539,7 +548,12 @@ pub fn run_scenario(sc: &Value, ex: &mut Exec) -> usize {
             }
             "Reset" => {
                 // new family: cfg delta in st["cfg"]
-                let mut merged = sc["cfg"].clone();
+                let full = st
+                    .get("cfg")
+                    .and_then(|c| c.get("full"))
+                    .and_then(|v| v.as_bool())
+                    .unwrap_or(false);
+                let mut merged = if full { json!({}) } else { sc["cfg"].clone() };
                 if let Some(o) = st.get("cfg").and_then(|v| v.as_object()) {
                     for (k, v) in o {
                         merged[k] = v.clone();
